@@ -17,7 +17,7 @@ RULE = ('exhaustive: all sequences of up to 3 refine calls over non-empty subset
         'distinct by the final (active cells, active functions) state; non-trivial if the state has >= 2 levels')
 MIN_NONTRIVIAL = {'quick': 300, 'thorough': 6000}
 REQUIRED_COUNTERS = ['contract:init', 'contract:refine', 'oracle:sets', 'oracle:tiling', 'oracle:independence', 'oracle:thb_pu', 'oracle:transforms',
-                     'oracle:disparity', 'oracle:incidence', 'oracle:queries']
+                     'oracle:disparity', 'oracle:incidence', 'oracle:queries', 'oracle:multi_level_supports']
 ASSUMPTIONS = ['the shadow model is driven by the dictionary refine() returns (the cells actually refined); minimality of that set is not claimed by the property',
                'rank / THB checks use dense linear algebra on spaces with <= 400 finest-level dofs']
 _state = {'case': None, 'heavy': True}
@@ -131,12 +131,46 @@ def _heavy(rec, hs, sh):
         if any(abs(e[0] - b[0]) > 1e-14 or abs(e[1] - b[1]) > 1e-14 for e, b in zip(sup, box)):
             _bad(rec, 'function_support agrees with the dyadic geometry', hs, function=[l, list(f)]); return
 
+def _support_queries(rec, hs, sh):
+    """compute_supports of function sets spread over several levels = the active cells met by any of them."""
+    L = hs.numlevels
+    rng = np.random.default_rng(sum(len(a) for a in hs.actfun) * 31 + L)
+    cells = [(l, tuple(c)) for l in range(L) for c in sorted(map(tuple, hs.active_cells(l)))]
+    for trial in range(2):
+        sel = []
+        for l in range(L):
+            pool = sorted(hs.actfun[l]) + (sorted(hs.deactfun[l]) if trial == 1 else [])
+            k = int(rng.integers(0, 3)) if pool else 0
+            sel.append([pool[int(i)] for i in rng.choice(len(pool), size=min(k, len(pool)), replace=False)] if k else [])
+        if sum(1 for x in sel if x) < 2 and L >= 2:
+            # make sure at least two levels contribute
+            for l in range(L):
+                pool = sorted(hs.actfun[l])
+                if pool and not sel[l]: sel[l] = [pool[0]]
+        rec.count('oracle:multi_level_supports')
+        try:
+            got = hs.compute_supports([list(x) for x in sel])
+        except Exception as ex:
+            _bad(rec, 'compute_supports raises', hs, exc=type(ex).__name__, msg=str(ex)[:200]); return False
+        want = {}
+        for (lc, c) in cells:
+            if any(sh.func_meets_cell(lf, tuple(f), lc, c) for lf in range(L) for f in sel[lf]):
+                want.setdefault(lc, set()).add(c)
+        gotn = {int(l): set(map(tuple, cs)) for l, cs in got.items() if len(cs)}
+        if gotn != want:
+            lv = sorted(set(gotn) | set(want))
+            _bad(rec, 'compute_supports of functions on several levels is the union of their active-cell supports', hs,
+                 functions=[[list(f) for f in x] for x in sel], missing={str(l): sorted(map(list, want.get(l, set()) - gotn.get(l, set())))[:4] for l in lv},
+                 extra={str(l): sorted(map(list, gotn.get(l, set()) - want.get(l, set())))[:4] for l in lv}); return False
+    return True
+
 def check_state(rec, hs, heavy=True):
     sh = getattr(hs, '_verif_shadow', None)
     if sh is None: return
     if not _cmp_sets(rec, hs, sh): return
     if not _tiling(rec, hs, sh): return
     if not _disparity(rec, hs, sh): return
+    if not _support_queries(rec, hs, sh): return
     if heavy: _heavy(rec, hs, sh)
 
 def setup(rec, tier):
